@@ -88,7 +88,10 @@ WireKeyShapes(net) ==        \* on the wire the key is additionally bounded by t
 \*  other      a genuine item of another type of the same network
 \*  otherblk   a genuine item of the same type that belongs to another key (another block / period / trie node)
 \*  fldbnd/fldfar  the item with its proof position field (slot / block number / path) at a boundary / far out of range
-ContentClasses == {"empty", "one", "two", "fill32", "fillbig", "valid", "trunc", "ext", "offshift", "flip", "emptyvar", "zeroitem", "other", "otherblk", "fldbnd", "fldfar"}
+\*  offdecr    a later offset of the fixed part (or of the first inner list) below the one before it - decreasing offsets
+\*  pathcut    state network: the genuine item under a key whose trie path is cut to every shorter length (a path that
+\*             ends inside an extension or leaf key of the proof)
+ContentClasses == {"empty", "one", "two", "fill32", "fillbig", "valid", "trunc", "ext", "offshift", "offdecr", "flip", "emptyvar", "zeroitem", "other", "otherblk", "fldbnd", "fldfar", "pathcut"}
 LightContent   == {"empty", "valid", "fill32"}
 
 \* ---- the case record ---------------------------------------------------------------------------------
